@@ -7,7 +7,8 @@
 (* The one-step action Generate leaves the DAG unchanged.                   *)
 (*                                                                         *)
 (* decl carries what a real node's entry must show: ename, everbose, edoc,  *)
-(* egeneric (declared through build_node).                                  *)
+(* egeneric (declared through build_node), etype (node_type of the class,   *)
+(* "None" for a node that implements NodeBase directly).                    *)
 (***************************************************************************)
 EXTENDS Naturals, Sequences, FiniteSets, TLC
 
@@ -21,11 +22,11 @@ SynType(D, id) ==
 ExpectedNodes(D) ==
     {IF IsReal(D, id)
      THEN LET d == B!Decl(D, id)
-          IN <<id, FALSE, d.egeneric, "processor", TRUE, d.ename, d.everbose, d.edoc>>
+          IN <<id, FALSE, d.egeneric, d.etype, TRUE, d.ename, d.everbose, d.edoc>>     \* etype: the class's node_type
      ELSE <<id, TRUE, FALSE, SynType(D, id), FALSE, "-", "-", "-">>
      : id \in B!ExpectedGraph(D).nodes}
 ExpectedEdges(D) == {<<e[1], e[2]>> : e \in B!ExpectedGraph(D).edges}
-ExpectedTypes(D) == {n[4] : n \in ExpectedNodes(D)}
+ExpectedTypes(D) == {n[4] : n \in ExpectedNodes(D)} \ {"None"}       \* a node without a type has no table entry
 
 (* the generation step as an action over (dag, config): the DAG is a read-only input *)
 VARIABLES dag, config
